@@ -34,7 +34,16 @@ def check(run):
     run.extra["token_universe_candidates_accepted"] = tokcounts
     for eco in sorted(tok):
         if tok[eco]:
-            jobs.append({"k": "matrix", "eco": eco, "tag": "tokens", "texts": tok[eco], "part": [1 if (eco == "alpm" and "-" in t) else 0 for t in tok[eco]]})
+            jobs.append({"k": "matrix", "eco": eco, "tag": "tokens", "texts": tok[eco], "part": [vlib.part_of(eco, t) for t in tok[eco]]})
+    # B2: pre-release identifiers around the limits of machine integers next to digit-led alphanumerics (a cycle needs
+    # two over-long numbers whose numeric and ASCII orders differ, and an alphanumeric between them in ASCII order)
+    IDS = ["0", "5", "10", "9223372036854775807", "9223372036854775808", "18446744073709551616", "90000000000000000000",
+           "100000000000000000000", "5a", "1a", "9a", "a", "A", "-5", "a5", "5-", "1000000000000000000000a"]
+    for eco in sorted(U):
+        if eco in ("semver", "npm", "cargo", "hex", "nuget", "golang", "conan", "composer", "mattermost", "apache", "github"):
+            stem = "v1.0.0" if eco == "golang" else "1.0.0"
+            texts = [stem] + [stem + "-" + i for i in IDS] + [stem + "-rc." + i for i in IDS] + [stem + "-" + i + ".1" for i in IDS[:8]]
+            jobs.append({"k": "matrix", "eco": eco, "tag": "ids", "texts": texts, "part": [0] * len(texts)})
     # B2: strings sampled from the regular expressions of the parsers themselves (shapes the grammar automata may lack)
     import regexgen
     for eco in sorted(U):
@@ -42,7 +51,7 @@ def check(run):
         for i in range(0, len(texts), 400):
             blk = texts[i:i + 400]
             pmap = dict(U[eco])
-            jobs.append({"k": "matrix", "eco": eco, "tag": "regex", "texts": blk, "part": [1 if (eco == "alpm" and "-" in t) else 0 for t in blk]})
+            jobs.append({"k": "matrix", "eco": eco, "tag": "regex", "texts": blk, "part": [vlib.part_of(eco, t) for t in blk]})
     total_judged = 0
     # shard: one trace per group of ecosystems to bound TLC memory/time
     nU = len(U)
@@ -106,7 +115,7 @@ def seeded_universes(U, rnd, k):
                         return m.group(0) + str(rnd.randint(0, 9))
                     t2 = re.sub(r"\d+", rep, t)
                     if rnd.random() < 0.2: t2 = t2.swapcase()
-                    texts.append(t2); parts.append(p)
+                    texts.append(t2); parts.append(vlib.part_of(eco, t2) if eco == "alpm" else p)
             jobs.append({"k": "matrix", "eco": eco, "tag": "seeded", "texts": texts, "part": parts})
     return jobs
 
@@ -129,7 +138,7 @@ def zero_and_boundary_families(U, rnd, k):
                 fam += [t[:mm.start()] + str(b) + t[mm.end():] for b in rnd.sample(refcheck.BOUNDARY, 8)]
                 for x in fam:
                     if x not in texts:
-                        texts.append(x); parts.append(1 if (eco == "alpm" and "-" in x) else p)
+                        texts.append(x); parts.append((vlib.part_of(eco, x) if eco == "alpm" else p))
             jobs.append({"k": "matrix", "eco": eco, "tag": "zeros", "texts": texts, "part": parts})
     return jobs
 
